@@ -172,9 +172,11 @@ theorem stack_pushes_typed : Generated.StackSites.pushSites.all pushOk = true :=
 /-! ## §2 Parser: the `{` look-ahead -/
 
 /-- `ParserPeekNextToken(extra)` answers a token only when the queue holds more than
-`extra` tokens: the guard of every `lexer.tokens[extra]` of `ParseExpression`. -/
+`extra` tokens: the guard of every `lexer.tokens[extra]` of `ParseExpression`.
+(`peekWaitRun false` = `ParserPeekNextToken`; with `true` it is `peekAfterSign`, which may
+answer `EndTk` on an empty queue and whose answer is never used as an index.) -/
 theorem peek_guards_index (extra : Nat) : ∀ (fuel : Nat) (s s' : PState) (t : Token),
-    peekWaitRun extra fuel s = .tok t s' → extra < s'.lex.tokens.length := by
+    peekWaitRun false extra fuel s = .tok t s' → extra < s'.lex.tokens.length := by
   intro fuel
   induction fuel with
   | zero => intro s s' t h; simp [peekWaitRun] at h
@@ -205,10 +207,10 @@ theorem peek_guards_index (extra : Nat) : ∀ (fuel : Nat) (s s' : PState) (t : 
 every look-ahead distance, every continuation and whatever input is still to come. -/
 theorem lookahead_index_in_range {α : Type} (i : Nat) (k : Token → Prog α) (s : PState) :
     Parser.run (.peekAt i k) s =
-      (match peekWaitRun i (s.size + 1) s with
+      (match peekWaitRun false i (s.size + 1) s with
        | .tok _ s' => Parser.run (k (s'.lex.tokens.getD i Token.zero)) s'
        | .stop st s' => (.stop st, s')) := by
-  cases hp : peekWaitRun i (s.size + 1) s with
+  cases hp : peekWaitRun false i (s.size + 1) s with
   | tok t s1 =>
     have hlt := peek_guards_index i _ _ _ _ hp
     rw [Parser.run, hp]
@@ -216,7 +218,7 @@ theorem lookahead_index_in_range {α : Type} (i : Nat) (k : Token → Prog α) (
   | stop st s1 =>
     rw [Parser.run, hp]
 
-example : ∃ s : PState, ∃ t s', peekWaitRun 1 10 s = .tok t s' :=
+example : ∃ s : PState, ∃ t s', peekWaitRun false 1 10 s = .tok t s' :=
   ⟨{ lex := { (LexState.init) with tokens := [⟨.symbol, ['a']⟩, ⟨.colonOperator, [':']⟩], stream := some [] } },
    _, _, rfl⟩
 
